@@ -50,7 +50,15 @@ def cases(tier, seed):
         elif cls == 5:   # run starts in the fallow period; crop parameters that differ from the fallow filler's
             kw.update(pre=(5, 40, 90), crops=["Barley", "BarleyGDD", "Quinoa", "Tef", "AlfalfaGDD", "PaddyRice",
                                               "Wheat", "Maize", "Tomato"], wet=True)
+        switch = (i % 12 in (7, 2))
+        if switch:
+            kw.update(crops=[c for c in gen.usable_crops() if c in common.cd_crops() and gen.crop_len_days(c) < 200],
+                      end_shape="after", harvest_early=(0.0 if i % 12 == 7 else 1.0))
         sp = gen.config(rng, **kw)
+        if switch:
+            # a calendar-day crop the model converts to thermal time: the conversion must not be
+            # left behind in the user's Crop object
+            sp["crop"]["kw"]["SwitchGDD"] = 1
         if cls == 5 and sp["crop"]["name"] in ("Wheat", "Maize", "Tomato"):
             sp["crop"]["kw"]["Zmin"] = float(gen.pick(rng, [0.2, 0.4]))
         if sp["irr"]["method"] == 1 and i % 2 == 0:
